@@ -109,7 +109,7 @@ func discharge(vc *VC, dir string, tag string, workers int, quick, slow int) {
 			defer func() { <-sem }()
 			file := filepath.Join(dir, fmt.Sprintf("%s_%03d.smt2", sanitize(tag), k))
 			var b strings.Builder
-			b.WriteString("(set-option :produce-models true)\n(set-logic ALL)\n")
+			b.WriteString("(set-option :produce-models true)\n" + vc.Options + "(set-logic ALL)\n")
 			b.WriteString(vc.S.prefix(o.Prefix))
 			b.WriteString("\n")
 			if o.Cover {
@@ -154,7 +154,7 @@ func dischargeBatch(vc *VC, dir string, tag string, workers int, quick, slow int
 	// prefixes are nested; process the obligations in script order
 	sort.SliceStable(vc.obls, func(i, j int) bool { return vc.obls[i].Prefix < vc.obls[j].Prefix })
 	var b strings.Builder
-	b.WriteString(fmt.Sprintf("(set-option :timeout %d)\n(set-logic ALL)\n", quick*1000))
+	b.WriteString(fmt.Sprintf("(set-option :timeout %d)\n%s(set-logic ALL)\n", quick*1000, vc.Options))
 	pos := 0
 	for _, o := range vc.obls {
 		for ; pos < o.Prefix; pos++ {
@@ -196,6 +196,10 @@ func dischargeBatch(vc *VC, dir string, tag string, workers int, quick, slow int
 		switch {
 		case o.Cover && a == "sat":
 			o.Status = "cover-ok"
+		case o.Cover && a == "unsat":
+			o.Status = "cover-dead"
+		case o.Cover:
+			o.Status = "cover-unknown" // a vacuity guard is not worth a solver race
 		case !o.Cover && a == "unsat":
 			o.Status = "discharged"
 		default:
@@ -206,6 +210,6 @@ func dischargeBatch(vc *VC, dir string, tag string, workers int, quick, slow int
 		os.Remove(file)
 		return
 	}
-	sub := &VC{S: vc.S, obls: rest}
+	sub := &VC{S: vc.S, obls: rest, Options: vc.Options}
 	discharge(sub, dir, tag, workers, quick, slow)
 }
